@@ -90,6 +90,7 @@ def run(ctx):
     ctx.rule("R18.j", "ListProxy model: every mutator (append, insert, extend, pop by index/key, remove -- also with an equal-but-not-identical argument --, clear, item and key assignment, "
                       "update) interpreted abstractly from an unnamed and a named store of abstract objects agrees with list/dict semantics: list view = _objects = names.values() (identity "
                       "and order), keys as specified, pop returns what it removed, a failed operation leaves no trace (33 operations)", floor=1)
+    ctx.rule("R18.k", "selector model: the validators of Selector and ListSelector interpreted abstractly (objects from a list / from a dict / a dict-declared selector after a list-style replacement x allow_None x check_on_set x None / object in force / object names still mentions / unknown object, 104 cases): accepted iff None with allow_None or one of the objects in force (_objects); nothing appended under check_on_set, unknown values appended once without it", floor=1)
     ctx.rule("R18.f", "outside ListProxy and the objects setter, _objects grows only in Selector._ensure_value_is_in_objects, which tests membership against the current objects for every single value", floor=1)
     ctx.not_decided += ["consistency after arbitrary mutation sequences (follows from per-mutator pairing but is not executed)",
                         "list mutators that ListProxy does not override (sort, reverse, __delitem__, +=) -- reported as informational"]
@@ -416,3 +417,5 @@ def _rule_g(ctx):
     # model-level rule, run last
     from checks import listproxy_model
     listproxy_model.report(ctx, "R18.j")
+    from checks import selector_model
+    selector_model.report(ctx, "R18.k")
